@@ -391,12 +391,32 @@ class Opaque:
     """Value the engine carries but does not interpret (e.g. the result of an uninterpreted
     library call).  `term` lets equal arguments give equal results."""
 
-    def __init__(self, tag, term=None):
+    def __init__(self, tag, term=None, cls=None, frozen=False, elem_frozen=False, origin=None):
         self.tag = tag
         self.term = term
+        self.cls = cls  # optional real-class hint
+        self.frozen = frozen  # mutating this object violates the frame of the current contract
+        self.elem_frozen = elem_frozen  # objects obtained from it are frozen (deeply)
+        self.origin = origin
+        self.attrs: dict = {}
+        self.cache: dict = {}
 
     def __repr__(self):
         return f"Opaque<{self.tag}>"
+
+    def truth_var(self):
+        if "truth" not in self.cache:
+            self.cache["truth"] = z3.Bool(fresh_name(f"truthy({self.tag})"))
+        return self.cache["truth"]
+
+    def none_var(self):
+        if "none" not in self.cache:
+            self.cache["none"] = z3.Bool(fresh_name(f"isnone({self.tag})"))
+        return self.cache["none"]
+
+    def child(self, tag, **kw):
+        """Value obtained from this one (attribute, element): inherits deep freezing."""
+        return Opaque(tag, frozen=self.elem_frozen, elem_frozen=self.elem_frozen, origin=self, **kw)
 
 
 # --------------------------------------------------------------------------------------------
